@@ -1,9 +1,13 @@
 import NetaddrVerif.Model.Proto
 import NetaddrVerif.Model.NetParse
+import NetaddrVerif.Model.NetParseX
 import NetaddrVerif.Driver.C01
 /-! Driver ops of property C03:
     `net_parse be argkind arg implicit ver flags` (argkind ∈ str, tuple, copyA, copyN) ·
-    `abbrev S` · `expand S` · `net_str be F V P`. -/
+    `abbrev S` · `expand S` · `net_str be F V P` ·
+    `abbrev_x kind val` (kind ∈ i = int, b = bool T/F, f = finite float given by its truncation,
+    n = None / tuple / list; answer: `s:<hex>` a new text, `=` the argument itself, `!type`) ·
+    `net_repr be F V P` (repr, and what constructing from its quoted part gives back). -/
 namespace NV.Driver.C03
 open NV NV.Proto NV.AddrParse NV.NetParse
 
@@ -36,6 +40,26 @@ def handle (op : String) (args : List String) : Option String :=
   | "net_str", [be, f, v, p] => do
     let be ← NV.Driver.C01.parseBe be
     pure (showStr (netStr be ⟨← f.toNat?, ← v.toNat?, ← p.toNat?⟩))
+  | "abbrev_x", [kind, val] => do
+    let a : AbbrevArg ← match kind with
+      | "i" => (parseInt val).map .int
+      | "b" => some (.bool (val == "T"))
+      | "f" => (parseInt val).map .float
+      | "n" => some .none
+      | _ => none
+    match cidrAbbrevToVerboseX a with
+    | .ok (.text t) => pure (showStr t)
+    | .ok .same => pure "="
+    | .error e => pure (showErr e)
+  | "net_repr", [be, f, v, p] => do
+    let be ← NV.Driver.C01.parseBe be
+    let r := netRepr be ⟨← f.toNat?, ← v.toNat?, ← p.toNat?⟩
+    match unquoteNetRepr r with
+    | none => pure s!"{showStr r} !unquote"
+    | some q =>
+      match ipNetwork be (.str q) false none 0 with
+      | .ok n => pure s!"{showStr r} {showNet n}"
+      | .error e => pure s!"{showStr r} {showErr e}"
   | _, _ => none
 
 end NV.Driver.C03
